@@ -904,6 +904,8 @@ def check_default(prog, rep):
 
 
 def run(prog, rep, tier):
+    rep.explanation = ('Exhaustive evaluation of the comparison-only dominance predicate on the finite set of order types of its inputs; def-use pairing of objective / violation arguments at its call sites; value-numbered loop body of the Pareto filter against its structural reference; guarded-division rule and whole-term comparison of the three distance transformations with the geometric definition.')
+    rep.not_decided = ['that the pivot arithmetic of the filter returns the non-dominated set for every order of dominated / duplicate points (loop invariant of the algorithm; only structural necessary conditions are checked)', 'order- and rescaling-invariance of the efficient set as runtime facts']
     check_dominates(prog, rep)
     check_dominates_calls(prog, rep)
     check_filter(prog, rep)
